@@ -23,8 +23,10 @@ def parse_playback(out: str):
             vals.append([int(x) for x in v.split(",") if x.strip()])
         chk = re.search(r"Check for `(\w+)`: \"+(.*?)\"+\n", block)
         res.append((vals, notes, chk.group(1) if chk else None, chk.group(2) if chk else None))
+    # inputs printed for cover properties come last: they are candidates only (Kani sometimes prints the values of a failing trace
+    # under the cover property it also satisfies); a candidate counts only if it fails when replayed on the real code
     res.sort(key=lambda r: 0 if r[2] == "assertion" else (2 if r[2] == "cover" else 1))
-    return [r for r in res if r[2] != "cover"]
+    return res
 
 
 def kani_playback(tree_crate: str, harness: str, timeout_s: int = 900, mem_kb: int = 12000000):
@@ -109,7 +111,7 @@ def search(prop, o, repo: str, scratch: str):
         return {"reproduced": False, "reason": "Kani printed no concrete playback values for a failed check", "kani_tail": tail}
     package = crate_rel
     w = None
-    for values, notes, cls, chk in pb[:4]:
+    for values, notes, cls, chk in pb[:6]:
         r = run_replay(tree, package, o.name, values)
         w = {"reproduced": r["reproduced"], "harness": o.name, "kani_values": values, "kani_value_notes": notes, "kani_check": chk,
              "replay_panic": r["panic"], "replay_output": r["output_tail"], "search_s": round(time.time() - t0, 1),
